@@ -7,6 +7,7 @@ import (
 	"os/exec"
 	"sort"
 	"strings"
+	"sync"
 	"testing"
 	"time"
 
@@ -358,9 +359,13 @@ func TestBlockExecutionIsDeterministic(t *testing.T) {
 			for rep := 1; rep < reps; rep++ {
 				var pre func(*account.AccountDB)
 				list := txs
-				mode := rep % 5
+				mode := rep % 6
 				globalHeight := w.height
+				var stopReaders func() string
 				switch mode {
+				case 5: // goroutine timing: other goroutines of the node (RPC balance queries, pool checks) read
+					// accounts of the parent state through their own AccountDB while the block executes
+					stopReaders = startReaders(w.root, named, rapid.IntRange(2, 6).Draw(t, "readers"))
 				case 4: // a node whose own head is elsewhere (verifying a fork block): the process-global head
 					// height differs; no fork boundary lies in between, so the result must not
 					globalHeight = w.height + uint64(rapid.IntRange(1, 5000).Draw(t, "headAhead"))
@@ -379,6 +384,12 @@ func TestBlockExecutionIsDeterministic(t *testing.T) {
 					list = rapid.Permutation(txs).Draw(t, "listOrder")
 				}
 				got := boot.ExecWith(w.root, globalHeight, h, list, "fullverify", pre)
+				if stopReaders != nil {
+					if p := stopReaders(); p != "" {
+						t.Fatalf("a goroutine reading balances of the parent state while the block executed crashed: %s\nblock: %s", p, descs(meta))
+					}
+					stats.Count("executions_with_concurrent_readers", 1)
+				}
 				if d := ref.diff(render(got)); d != "" {
 					t.Fatalf("repetition %d (mode %d) of the same block disagrees with the first run: %s\nblock: %s", rep, mode, d, descs(meta))
 				}
@@ -436,6 +447,54 @@ func TestBlockExecutionIsDeterministic(t *testing.T) {
 			stats.Count("fresh_process_replays", 1)
 		}
 	})
+}
+
+// startReaders starts n goroutines that read balances, nonces and code hashes of the given accounts at
+// root, each through an AccountDB of its own (as the RPC layer and the pool do on a running node),
+// until the returned function is called. It reports a reader's panic, if any.
+func startReaders(root common.Hash, addrs []common.Address, n int) func() string {
+	all := append([]common.Address{}, addrs...)
+	for i := 0; i < 4; i++ {
+		all = append(all, common.HexToAddress(blockgen.Addr(i)))
+	}
+	stop := make(chan struct{})
+	var wg sync.WaitGroup
+	var mu sync.Mutex
+	crashed := ""
+	for g := 0; g < n; g++ {
+		wg.Add(1)
+		go func(g int) {
+			defer wg.Done()
+			defer func() {
+				if r := recover(); r != nil {
+					mu.Lock()
+					crashed = fmt.Sprint(r)
+					mu.Unlock()
+				}
+			}()
+			st, err := boot.OpenState(root)
+			if err != nil {
+				return
+			}
+			for i := g; ; i++ {
+				select {
+				case <-stop:
+					return
+				default:
+				}
+				a := all[i%len(all)]
+				st.GetBalance(a)
+				st.GetNonce(a)
+			}
+		}(g)
+	}
+	return func() string {
+		close(stop)
+		wg.Wait()
+		mu.Lock()
+		defer mu.Unlock()
+		return crashed
+	}
 }
 
 func descs(m []blockgen.Tx) string {
